@@ -795,6 +795,40 @@ def front_rewrite(R):
             lab = aop if (ll, rl) == ("opaque", "opaque") else f"{aop},left={ll},right={rl}"
             R.check(f"FRONT.rewrite[{lab}]", "nsl.passes.RewriteAssignEqualOperations::RewriteAssignEqualVisitor.v_AssignmentExpression", ok,
                     detail=f"`l {aop} r` must become `l = (l {bop} r)` with r kept as one operand; rewritten to {res} (raised {step.raised!r})")
+    # the pass rewrites EVERY compound assignment of the tree: the handler hands both operands to the visitor (a compound assignment nested in
+    # the right-hand side -- `x = y += 2`, `x += y -= 1` -- or in an index of the target is rewritten by the recursive visit) and builds its
+    # result from what the visits return
+    for aop, bop in (("ASSIGN", None), ("ASSIGN_ADD_EQUAL", "ADD"), ("ASSIGN_SUB_EQUAL", "SUB"), ("ASSIGN_MUL_EQUAL", "MUL"), ("ASSIGN_DIV_EQUAL", "DIV")):
+        l, r = ag.E("l"), ag.E("r")
+        l2, r2 = ag.E("l2"), ag.E("r2")
+        n = a.AssignmentExpression(l, r, operation=op.Operation[aop])
+        step = ag.visitor_step(cls(), n, None, hypothesis=lambda obj, c, st, l=l, r=r, l2=l2, r2=r2: l2 if obj is l else (r2 if obj is r else None))
+        res = step.result if step.result is not None else n
+        visited = [o for o, _c in step.visits]
+        ok = step.raised is None and sum(1 for o in visited if o is l) == 1 and sum(1 for o in visited if o is r) == 1 and isinstance(res, a.AssignmentExpression) \
+            and res.GetOperation() == op.Operation.ASSIGN and res.GetLeft() is l2
+        if ok and bop is None:
+            ok = res.GetRight() is r2
+        elif ok:
+            ok = isinstance(res.GetRight(), a.BinaryExpression) and res.GetRight().GetOperation() == op.Operation[bop] and res.GetRight().GetLeft() is l2 and res.GetRight().GetRight() is r2
+        R.check(f"FRONT.rewrite.descends[{aop}]", "nsl.passes.RewriteAssignEqualOperations::RewriteAssignEqualVisitor.v_AssignmentExpression", ok,
+                detail=f"operands visited: {len(visited)} visit(s) ({'l' if any(o is l for o in visited) else '-'}{'r' if any(o is r for o in visited) else '-'}); result {res} (raised {step.raised!r}); "
+                       "both operands must be visited once and the result built from the visits' results",
+                replay=script("""
+                    import io, contextlib
+                    from nsl import Compiler, LinearIR, VM
+                    bad = []
+                    for src, want in (('export function f(int a) -> int { int x = 0; int y = 5; x = y += a; return ((x * 100) + y); }', 707),
+                                      ('export function f(int a) -> int { int x = 1; int y = 5; x += y += a; return ((x * 100) + y); }', 807),
+                                      ('export function f(int a) -> int { int x = 1; int y = 5; x *= y -= a; return ((x * 100) + y); }', 303)):
+                        with contextlib.redirect_stdout(io.StringIO()):
+                            r = Compiler.Compiler().Compile(src)
+                        lk = LinearIR.Linker(); lk.AddModule(r.IRModule)
+                        got = VM.VirtualMachine(lk.Link()).Invoke('f', a=2)
+                        print(src, '-> f(2) =', got, 'expected', want)
+                        if got != want: bad.append(src)
+                    if bad: print('REPLAY-CONFIRMED')
+                    """))
     # ranges: the pass runs BEFORE update-locations, so operands may or may not have a known range yet.  Whatever range the new node gets is the
     # explicit unknown, or a range that starts at a text offset (>= 0), covers the operands whose range is known and stays inside the range of
     # the node it replaces (C20: a reported range designates text)
